@@ -111,3 +111,15 @@ package bytecode
 //@   ensures inloop: result.currentType != PTERROR ==> result.inLoop == info0.inLoop
 //@   ensures frame: result.environment == info0.environment && result.context == info0.context
 //@   loop 1 invariant info.inLoop && info.environment == info0.environment && info.context == info0.context
+
+// ---- the checker is run on every statement of a set-transform, from a private environment ----
+
+//@ pred initialEnv(i ProcessTypeInfo) := (forall k Str :: { select(domain(i.environment), k) } has(i.environment, k) == (k == "match" || k == "matchLength")) && i.environment["match"] == PTSTRING && i.environment["matchLength"] == PTNUMBER
+
+//@ func generateSetTransform [C12]
+//@   requires state != nil && state.globalTransformations != nil
+//@   modifies entries(state.globalTransformations)
+//@   loop 1 invariant private: ctxOk(info) && info.context == TRANSFORMATION && !info.inLoop && fresh(info.environment)
+//@   loop 1 invariant initial: rangeindex == -1 ==> initialEnv(info)
+//@   loop 1 invariant noerror: rangeindex >= 0 ==> info.currentType != PTERROR
+//@   ensures either: (result.1 == nil) != (result.0 == nil)
